@@ -22,9 +22,9 @@ SPECS = {
             'fault_kinds': ['prov_raise', 'prov_false', 'prov_empty', 'prov_malformed', 'prov_stale', 'prov_slow',
                             'clock_jump', 'cache_partial'],
             'tiers': {
-                'quick': {'runs': 700, 'budget_s': 100, 'run_timeout_s': 60, 'shrink_budget_s': 60,
+                'quick': {'runs': 700, 'budget_s': 100, 'run_timeout_s': 120, 'shrink_budget_s': 60,
                           'params': {'slice_p': 0.35}},
-                'thorough': {'runs': 30000, 'budget_s': 1500, 'run_timeout_s': 120, 'shrink_budget_s': 180,
+                'thorough': {'runs': 30000, 'budget_s': 1500, 'run_timeout_s': 300, 'shrink_budget_s': 180,
                              'params': {'slice_p': 0.5}},
             },
         }, {
@@ -34,9 +34,9 @@ SPECS = {
                             'http_conn_error', 'http_status_204', 'http_status_202', 'http_status_302', 'http_html_200', 'http_truncated_json', 'http_json_null',
                             'http_json_error_object', 'http_empty_body', 'clock_jump', 'cache_partial'],
             'tiers': {
-                'quick': {'runs': 200, 'budget_s': 45, 'run_timeout_s': 60, 'shrink_budget_s': 40,
+                'quick': {'runs': 200, 'budget_s': 45, 'run_timeout_s': 120, 'shrink_budget_s': 40,
                           'params': {'slice_p': 0.3, 'layer': 'http'}},
-                'thorough': {'runs': 8000, 'budget_s': 600, 'run_timeout_s': 120, 'shrink_budget_s': 120,
+                'thorough': {'runs': 8000, 'budget_s': 600, 'run_timeout_s': 300, 'shrink_budget_s': 120,
                              'params': {'slice_p': 0.5, 'layer': 'http'}},
             },
         }],
@@ -71,7 +71,7 @@ SPECS = {
             'fault_kinds': ['prov_raise', 'prov_false', 'prov_stale', 'bcast_lost_reply', 'db_commit_fail', 'crash',
                             'multi_handle', 'drop_handle', 'gc_collect'],
             'tiers': {
-                'quick': {'runs': 320, 'budget_s': 90, 'run_timeout_s': 90, 'shrink_budget_s': 70,
+                'quick': {'runs': 320, 'budget_s': 90, 'run_timeout_s': 150, 'shrink_budget_s': 70,
                           'params': {'focus': 'C08'}},
                 'thorough': {'runs': 12000, 'budget_s': 1200, 'run_timeout_s': 180, 'shrink_budget_s': 240,
                              'params': {'focus': 'C08'}},
@@ -112,7 +112,7 @@ SPECS = {
             'module': 'scenarios.c07_create',
             'fault_kinds': ['prov_raise', 'prov_false', 'prov_stale', 'bcast_lost_reply', 'db_commit_fail', 'crash'],
             'tiers': {
-                'quick': {'runs': 400, 'budget_s': 110, 'run_timeout_s': 90, 'shrink_budget_s': 70,
+                'quick': {'runs': 400, 'budget_s': 110, 'run_timeout_s': 150, 'shrink_budget_s': 70,
                           'params': {'focus': 'C07'}},
                 'thorough': {'runs': 12000, 'budget_s': 1500, 'run_timeout_s': 180, 'shrink_budget_s': 240,
                              'params': {'focus': 'C07'}},
@@ -140,7 +140,7 @@ SPECS = {
             'fault_kinds': ['prov_raise', 'prov_false', 'prov_stale', 'db_commit_fail', 'crash', 'multi_handle', 'drop_handle',
                             'gc_collect'],
             'tiers': {
-                'quick': {'runs': 400, 'budget_s': 110, 'run_timeout_s': 90, 'shrink_budget_s': 70,
+                'quick': {'runs': 400, 'budget_s': 110, 'run_timeout_s': 150, 'shrink_budget_s': 70,
                           'params': {'focus': 'C09'}},
                 'thorough': {'runs': 12000, 'budget_s': 1500, 'run_timeout_s': 180, 'shrink_budget_s': 240,
                              'params': {'focus': 'C09'}},
@@ -250,7 +250,7 @@ SPECS = {
             'module': 'scenarios.c16_public',
             'fault_kinds': [],
             'tiers': {
-                'quick': {'runs': 1200, 'budget_s': 60, 'run_timeout_s': 60, 'shrink_budget_s': 40, 'params': {'arm': 'objects'}},
+                'quick': {'runs': 1200, 'budget_s': 60, 'run_timeout_s': 120, 'shrink_budget_s': 40, 'params': {'arm': 'objects'}},
                 'thorough': {'runs': 40000, 'budget_s': 700, 'run_timeout_s': 120, 'shrink_budget_s': 120, 'params': {'arm': 'objects'}},
             },
         }, {
@@ -261,7 +261,7 @@ SPECS = {
             'env': {'DB_FIELD_ENCRYPTION_KEY': '11aa22bb33cc44dd55ee66ff77008899aabbccddeeff00112233445566778899'},
             'fault_kinds': ['crash'],
             'tiers': {
-                'quick': {'runs': 140, 'budget_s': 40, 'run_timeout_s': 90, 'shrink_budget_s': 40, 'params': {'arm': 'storage'}},
+                'quick': {'runs': 140, 'budget_s': 40, 'run_timeout_s': 150, 'shrink_budget_s': 40, 'params': {'arm': 'storage'}},
                 'thorough': {'runs': 4000, 'budget_s': 500, 'run_timeout_s': 180, 'shrink_budget_s': 120, 'params': {'arm': 'storage'}},
             },
         }, {
@@ -272,7 +272,7 @@ SPECS = {
             'env': {'DB_FIELD_ENCRYPTION_PASSWORD': 'correct horse battery staple (verif)'},
             'fault_kinds': ['crash'],
             'tiers': {
-                'quick': {'runs': 80, 'budget_s': 30, 'run_timeout_s': 90, 'shrink_budget_s': 40, 'params': {'arm': 'storage'}},
+                'quick': {'runs': 80, 'budget_s': 30, 'run_timeout_s': 150, 'shrink_budget_s': 40, 'params': {'arm': 'storage'}},
                 'thorough': {'runs': 2000, 'budget_s': 300, 'run_timeout_s': 180, 'shrink_budget_s': 120, 'params': {'arm': 'storage'}},
             },
         }],
